@@ -14,7 +14,7 @@ static void j_cd(struct compoundData *c) {
 }
 static int in_group = 0, group_first = 1;
 static void one(const char *s, int len, const char *grp) {           /* len bytes, may not contain NUL */
-  char buf[400]; memcpy(buf, s, len); buf[len] = 0;
+  static char bigbuf[1 << 15]; char small[400]; char *buf = len < 399 ? small : bigbuf; memcpy(buf, s, len); buf[len] = 0;
   if (locid() != 1) setlocale(LC_NUMERIC, "C.utf8");      /* every parse starts from the non-C locale */
   int l0 = locid(); xrl_error *e = NULL; struct compoundData *c = CompoundParser(buf, &e); int l1 = locid();
   if (in_group && !group_first) fputc(',', OUT);
@@ -91,6 +91,15 @@ int cmd_c07(int argc, char **argv) {
       }
       for (int p = 0; p < la; p++) { memcpy(b, a, p); memcpy(b + p, a + p + 1, la - p - 1); one(b, la - 1, "del"); }
     }
+  } else if (!strcmp(argv[0], "extreme")) {
+    /* well-formed formulas at the extremes of size: deep nesting (1 .. 120 levels, with and without multipliers), long flat formulas, long groups */
+    static char big[1 << 15];
+    for (int d = 1; d <= 120; d += (d < 40 ? 1 : 9)) {
+      int o = 0; for (int i = 0; i < d; i++) big[o++] = '('; o += sprintf(big + o, "H2O"); for (int i = 0; i < d; i++) big[o++] = ')'; one(big, o, "deep");
+      o = 0; o += sprintf(big + o, "Ca"); for (int i = 0; i < d; i++) { big[o++] = '('; big[o++] = 'P'; } o += sprintf(big + o, "O4"); for (int i = 0; i < d; i++) { big[o++] = ')'; if (i < 20) big[o++] = '2'; } o += sprintf(big + o, "F"); one(big, o, "deep");
+    }
+    for (int n = 10; n <= 1500; n = n * 3 / 2 + 1) { int o = 0; for (int i = 0; i < n; i++) o += sprintf(big + o, "%s", SYMS[(i * 7) % 90]); one(big, o, "long");
+      o = 0; big[o++] = '('; for (int i = 0; i < n; i++) o += sprintf(big + o, "%s%d", SYMS[(i * 11) % 90], 1 + i % 9); o += sprintf(big + o, ")3"); one(big, o, "long"); }
   } else if (!strcmp(argv[0], "small")) {
     static const char AL[] = "HOCal()20."; int maxlen = atoi(argv[1]); int part = argc > 2 ? atoi(argv[2]) : 0, np = argc > 3 ? atoi(argv[3]) : 1; long idx = 0;
     for (int len = 0; len <= maxlen; len++) { long tot = 1; for (int i = 0; i < len; i++) tot *= 10;
